@@ -963,7 +963,9 @@ def _in_descent(function_under_verification):
     their real source"""
     return function_under_verification in tuple(P_PARSER + ':_Parser.' + n for n in (
         'parse', 'parse_w_maybe_infix_ops', 'parse_w_infix_ops', 'infix_op_sequence_for_single_op',
-        'parse_mandatory_primitive'))
+        'parse_mandatory_primitive')) + (
+        P_PARSER + ':_SimpleParserOnAnyLineParser.parse_from_token_parser',
+        P_PARSER + ':_FullParserOnAnyLineParser.parse_from_token_parser')
 
 
 M.contract(P_PARSER + ':_Parser.parse_primitive', inline=_in_descent,
@@ -1037,7 +1039,7 @@ def is_keys_of(keys, mapping):
     return keys == mapping.keys()
 
 
-M.contract(P_PARSER + ':_Parser.__init__',
+M.contract(P_PARSER + ':_Parser.__init__', inline=_in_descent,
            params=dict(self=Inst(expression_parser._Parser),
                        grammar=Custom(lambda interp, name: PARSER.make(interp, name).grammar), parser=TOKEN_PARSER),
            ensures={
